@@ -1451,7 +1451,14 @@ struct TemplateCore {
                 } else if (evaluate(right, next_expr, expr->Operation) &&
                            evaluateExpression(left, right, expr->Operation)) {
                     expr = next_expr;
-                    continue;
+
+                    // As above: the next operator belongs to the caller unless it binds tighter than the
+                    // operator on this sub-expression's left.
+                    if (previous_oper < expr->Operation) {
+                        continue;
+                    }
+
+                    return true;
                 }
 
                 return false;
